@@ -8,6 +8,7 @@ import (
 	"encoding/json"
 	"errors"
 	"net/url"
+	"strings"
 )
 
 //verif:harness id=C16 tier=quick,thorough witness=end bounds="external callbacks and path items: an operation whose callback is a reference into another file (c.json#/components/callbacks/CB), or a path that is a reference to a path item of another file whose operation has an inline callback; the callback's operation uses its own file's components (request body schema, parameter, response header) by #/ references, the root having different components under the same names: after internalising, serialising and reloading with external references disallowed every schema reached through the callback dereferences to the same content as before"
@@ -153,5 +154,90 @@ func verifH_C16_coinciding_spellings() {
 	bj, _ := json.Marshal(before)
 	aj, _ := json.Marshal(after)
 	verifAssert(string(bj) == string(aj), "C16 coinciding spellings: after internalising, serialising and reloading every schema dereferences to the same content as before (distinct targets are not merged)")
+	verifReach("end")
+}
+
+//verif:harness id=C16 tier=quick,thorough witness=end bounds="external references at the positions the loader visits last: an example under a parameter's examples, under a response header's examples, under the examples of a parameter's content media type, and a header under a request body media type's encoding, each a reference into ex.json (every non-empty subset of the four): they are resolved by loading, and after internalising, serialising and reloading with external references disallowed each still designates the same content; the serialised document names no other file"
+func verifH_C16_late_positions() {
+	verifMapOrder()
+	subset := 1 + verifChoose("positions", 15)
+	exRef := `{"$ref":"ex.json#/components/examples/E"}`
+	files := map[string]string{
+		"/r/ex.json": `{"components":{"examples":{"E":{"summary":"the example","value":"v"}},"headers":{"H":{"description":"the header","schema":{"type":"string"}}}}}`,
+	}
+	param := `{"name":"q","in":"query","schema":{"type":"string"}`
+	if subset&1 != 0 {
+		param += `,"examples":{"e1":` + exRef + `}`
+	}
+	param += `}`
+	cparam := `{"name":"c","in":"query","content":{"application/json":{"schema":{"type":"string"}`
+	if subset&4 != 0 {
+		cparam += `,"examples":{"e3":` + exRef + `}`
+	}
+	cparam += `}}}`
+	hdr := `{"schema":{"type":"string"}`
+	if subset&2 != 0 {
+		hdr += `,"examples":{"e2":` + exRef + `}`
+	}
+	hdr += `}`
+	enc := ``
+	if subset&8 != 0 {
+		enc = `,"encoding":{"f":{"headers":{"X-E":{"$ref":"ex.json#/components/headers/H"}}}}`
+	}
+	rootText := `{"openapi":"3.0.0","info":{"title":"t","version":"1"},"paths":{"/a":{"post":{"operationId":"op","parameters":[` + param + `,` + cparam + `],` +
+		`"requestBody":{"content":{"multipart/form-data":{"schema":{"type":"object","properties":{"f":{"type":"string"}}}` + enc + `}}},` +
+		`"responses":{"200":{"description":"d","headers":{"X-R":` + hdr + `}}}}}}}`
+	rootLoc := &url.URL{Path: "/r/doc.json"}
+	loader := NewLoader()
+	loader.IsExternalRefsAllowed = true
+	loader.ReadFromURIFunc = func(l *Loader, u *url.URL) ([]byte, error) {
+		if u.Path == rootLoc.Path {
+			return []byte(rootText), nil
+		}
+		if t, ok := files[u.Path]; ok {
+			return []byte(t), nil
+		}
+		return nil, errors.New("no such file")
+	}
+	doc, err := loader.LoadFromDataWithPath([]byte(rootText), rootLoc)
+	verifAssert(err == nil && doc != nil, "C16 late positions: the multi-file document loads")
+	if err != nil || doc == nil {
+		return
+	}
+	probe := func(d *T, what string) {
+		op := d.Paths.Value("/a").Post
+		if subset&1 != 0 {
+			e := op.Parameters[0].Value.Examples["e1"]
+			verifAssert(e != nil && e.Value != nil && e.Value.Summary == "the example", "C16 late positions: the example under a parameter designates the external example "+what)
+		}
+		if subset&4 != 0 {
+			e := op.Parameters[1].Value.Content["application/json"].Examples["e3"]
+			verifAssert(e != nil && e.Value != nil && e.Value.Summary == "the example", "C16 late positions: the example under a parameter's media type designates the external example "+what)
+		}
+		if subset&2 != 0 {
+			e := op.Responses.Value("200").Value.Headers["X-R"].Value.Examples["e2"]
+			verifAssert(e != nil && e.Value != nil && e.Value.Summary == "the example", "C16 late positions: the example under a response header designates the external example "+what)
+		}
+		if subset&8 != 0 {
+			h := op.RequestBody.Value.Content["multipart/form-data"].Encoding["f"].Headers["X-E"]
+			verifAssert(h != nil && h.Value != nil && h.Value.Description == "the header", "C16 late positions: the header under an encoding designates the external header "+what)
+		}
+	}
+	probe(doc, "after loading")
+	doc.InternalizeRefs(context.Background(), nil)
+	b, merr := json.Marshal(doc)
+	verifAssert(merr == nil, "C16 late positions: the internalised document serialises")
+	if merr != nil {
+		return
+	}
+	verifAssert(!strings.Contains(string(b), "ex.json"), "C16 late positions: the internalised document names no other file")
+	l2 := NewLoader()
+	l2.ReadFromURIFunc = func(*Loader, *url.URL) ([]byte, error) { return nil, errors.New("no reads expected") }
+	doc2, rerr := l2.LoadFromData(b)
+	verifAssert(rerr == nil && doc2 != nil, "C16 late positions: the internalised document loads with external references disallowed")
+	if rerr != nil || doc2 == nil {
+		return
+	}
+	probe(doc2, "after internalising and reloading")
 	verifReach("end")
 }
